@@ -76,6 +76,7 @@ type Exec struct {
 	InputMut  string // non-empty: the call modified its input (C13)
 	Emitted   []*Msg
 	Transfers []spec.OutTransfer
+	backing   []byte // the one buffer all argument slices of the input point into
 }
 
 // Succeeded says whether the call returned success.
@@ -145,6 +146,7 @@ func (nd *Node) Execute(m *Msg, faultKind, faultK int) *Exec {
 	ex.Active = true
 
 	bufArgs, backing := argBuffer(args)
+	ex.backing = backing
 	backingCopy := append([]byte{}, backing...)
 	value := m.Value
 	if value == nil {
@@ -239,6 +241,26 @@ func (nd *Node) Execute(m *Msg, faultKind, faultK int) *Exec {
 	}
 	ex.Post = spec.ShardState(nd.Store.Accts).Clone()
 	return ex
+}
+
+// ReuseInput does what the owner of a call's input may do once the call has returned and its
+// results have been read: the buffers are used again for something else. Nothing the library keeps
+// may point into them.
+func ReuseInput(ex *Exec) {
+	for i := range ex.backing {
+		ex.backing[i] = 0xA5
+	}
+	if in := ex.Input; in != nil {
+		for i := range in.CallerAddr {
+			in.CallerAddr[i] = 0xA5
+		}
+		for i := range in.RecipientAddr {
+			in.RecipientAddr[i] = 0xA5
+		}
+		if in.CallValue != nil {
+			in.CallValue.Add(in.CallValue, big.NewInt(1_000_000_007))
+		}
+	}
 }
 
 // ConsumeOutput does what the owner of a returned VMOutput may do with it: the library's own
